@@ -243,6 +243,26 @@ pub async fn run_case(c: Case) -> Result<CaseInfo, Failure> {
                 format!("send #{i} ({:?}) was refused with ExpectPayload although no streamed publish was ever started successfully (streams: {:?}); futures {:?}", s.kind, w.streams.iter().map(|s| (s.qos, s.start_err.clone())).collect::<Vec<_>>(), w.results_summary()),
             ));
         }
+        // every exchange has finished: each of the caller-chosen identifiers can be used again, whatever failed locally before
+        if !w.ended() {
+            for id in 1u8..4 {
+                w.force_send_own(SendKind::Qos1, id);
+                let slot = w.slots.len() - 1;
+                w.apply(Op::Settle).await.map_err(|f| fail(&c, &f.rule, f.detail))?;
+                let n = w.unanswered.len() as u8;
+                if n > 0 {
+                    w.apply(Op::Ack { n, batch: false }).await.map_err(|f| fail(&c, &f.rule, f.detail))?;
+                }
+                w.poll_all();
+                if !matches!(w.slots[slot].result, Some(SendRes::PubAck(_))) {
+                    return Err(Failure::new(
+                        "free-id-refused",
+                        format!("C06/{}/free-id-refused", c.role.name()),
+                        format!("nothing is outstanding, yet a QoS 1 publish with the caller-chosen packet id {id} ended as {:?}; local failure before: {local_failure}; futures {:?}", w.slots[slot].result, w.results_summary()),
+                    ));
+                }
+            }
+        }
         if w.eut.credit() != Some(w.limit) {
             return Err(Failure::new(
                 "credit-not-restored",
@@ -274,7 +294,7 @@ fn op_strategy() -> BoxedStrategy<Op> {
         8 => (kind, prop_oneof![5 => Just(0u8), 2 => 1u8..4]).prop_map(|(kind, own_id)| Op::Send { kind, again: false, own_id }),
         1 => (0u8..2, 1u8..3).prop_map(|(qos, bad)| Op::StreamStart { qos, declared: 3, bad }),
         1 => prop_oneof![Just(Op::StreamDrop(0)), Just(Op::Chunk { stream: 0, len: 1 })],
-        1 => (kind2, 0u8..3).prop_map(|(kind, how)| Op::SendBad { kind, how }),
+        1 => (kind2, 0u8..3, prop_oneof![2 => Just(0u8), 1 => 1u8..4]).prop_map(|(kind, how, own)| Op::SendBad { kind, how: how | own << 2 }),
         4 => (1u8..4, any::<bool>()).prop_map(|(n, batch)| Op::Ack { n, batch }),
         2 => prop_oneof![
             3 => prop::sample::select(vec![4u8, 5, 7, 9, 11]).prop_map(Dev::WrongType),
